@@ -130,6 +130,10 @@ def e2e_cases(tier, ne2e):
     for ph in stalls:
         cases.append((2, {ph: rm.Action("timeout", 0, 0)}, "stall"))
     cases.append((2, {"greet": rm.Action("eof", 0, 0)}, "refused-connect"))
+    # the destination is in connect-timeout backoff (queue/lock/tcpto holds >= 2 recent timeouts): qmail-remote skips the
+    # address without connecting; having no host left to try is connect trouble, i.e. temporary (seed c09-s3)
+    for count, age in ((2, 0), (2, 3000), (3, 100), (10, 0), (1, 0), (2, 100000)):
+        cases.append((1 + (count + age) % 3, {"greet": rm.Action("eof", 0, 0)}, "backoff-%d-%d" % (count, age)))
     i = 0
     while len(cases) < ne2e:
         rng = core.case_rng(PROP, i, "e2e")
@@ -167,12 +171,17 @@ def free_port():
 def run_remote(b, home, n, script, kind, sink, stall):
     """one run of the real qmail-remote; -> (rc, out, err, transcript|None)"""
     with open(home + "/queue/lock/tcpto", "wb") as f:
-        f.write(b"\0" * 1024)
+        rec = b""
+        if kind.startswith("backoff-"):
+            count, age = (int(x) for x in kind.split("-")[1:])
+            when = int(time.time()) - age
+            rec = bytes([127, 0, 0, 1, count, 0, 0, 0]) + when.to_bytes(4, "little") + b"\0" * 4
+        f.write(rec + b"\0" * (1024 - len(rec)))
     tr = None
     # a scripted stall costs timeoutremote seconds; everywhere else the limit is generous so that a loaded
     # machine cannot fake a stall
     sandbox.write_control(home, "timeoutremote", TIMEOUTREMOTE if stall else 60)
-    if kind == "refused-connect":
+    if kind == "refused-connect" or kind.startswith("backoff-"):
         sandbox.write_control(home, "smtproutes", ":127.0.0.1:%d" % free_port())
     else:
         sandbox.write_control(home, "smtproutes", ":127.0.0.1:%d" % sink.port)
@@ -181,7 +190,7 @@ def run_remote(b, home, n, script, kind, sink, stall):
         rc, out, err = core.run_with_watchdog(
             [home + "/bin/qmail-remote", "dest.test", "s@client.test"] + ["r%d@dest.test" % i for i in range(n)],
             150, env=b.env(home), stdin=fin)
-    if kind != "refused-connect":
+    if kind != "refused-connect" and not kind.startswith("backoff-"):
         tr = sink.finish()
     return rc, out, err, tr
 
@@ -249,6 +258,8 @@ def e2e_worker(bdir, cases, tier):
                     res.counters.inc("e2e_possible_duplicate_flagged")
                 if kind in ("stall", "refused-connect"):
                     res.counters.inc("e2e_" + kind.replace("-", "_"))
+                if kind.startswith("backoff-"):
+                    res.counters.inc("e2e_destination_in_tcpto_backoff")
                 if kind != "random" or len(res.counters.get("samples_loopback", [])) < 2:
                     res.counters.setdefault("samples_loopback", []).append(
                         {"loopback_script": wit["script"], "reports": core.hx(out[:200])})
